@@ -6,5 +6,6 @@ CONSTANTS
  MCCfgs <- Cfg34
  GenCfgs <- GenAll
  MaxForge = 1
+ Combine = TRUE
 INVARIANTS Emit
 CHECK_DEADLOCK FALSE
